@@ -103,6 +103,16 @@ fn gen(rng: &mut Rng, tier: &str) -> Vec<(String, Value)> {
         push("boundary.https_path", vec!["rsync://h/m/x.mft".into()],
              vec![https_uri(&mut r, "h", p), https_uri(&mut r, "H", p), https_uri(&mut r, "..", p), https_uri(&mut r, "", p)]);
     }
+    // the dump tree: repository directories that are not plain new names
+    push("boundary.dump_dirs", vec!["rsync://store/m/a/b/c".into(), "rsync://a/b/c".into()],
+         vec!["https://../n.xml".into(), "https://m/n.xml".into()]);
+    push("boundary.dump_dirs", vec!["rsync://m/a/b/c".into(), "rsync://a/b/c".into()],
+         vec!["https://./n.xml".into(), "https://m/n.xml".into()]);
+    push("boundary.dump_dirs", vec!["rsync://m/a/b/c".into(), "rsync://a/b/c".into()],
+         vec!["https:///n.xml".into(), "https://M/n.xml".into()]);
+    push("boundary.dump_dirs", vec!["rsync://a/m/x.cer".into()], vec!["https://rsync/n.xml".into(), "https://RSYNC/other.xml".into()]);
+    push("boundary.dump_dirs", vec!["rsync://a/m/x".into(), "rsync://a/m/x/y".into(), "rsync://a/m/x/".into(), "rsync://A/m/x".into()],
+         vec!["https://a/n.xml".into(), "https://A/other.xml".into(), "https://a-1/n.xml".into()]);
     // (c) structured random: small pools so that equivalent and near-equivalent URIs meet
     let n = if tier == "thorough" { 1500 } else { 100 };
     for _ in 0..n {
@@ -256,12 +266,39 @@ fn run(input: &Value) -> CaseOut {
         }));
     }
 
+    // one dump tree: the rsync repository and the first two RRDP repositories, every valid rsync URI written
+    // into each (as Store::dump_point does: DumpRegistry::get_repo_path, then dump_object); afterwards
+    // look where the content of each write is
+    let dump_root = cache.join("dump");
+    let mut repo_dirs: Vec<PathBuf> = vec![reg.get_repo_path(None)];
+    for n in valid.iter().take(2) { repo_dirs.push(reg.get_repo_path(Some(n))); }
+    let mut n_writes = 0usize;
+    for dir in &repo_dirs {
+        for u in pr.iter().flatten() {
+            let _ = store.verif_dump_object(dir, u, format!("{}", n_writes).as_bytes());
+            n_writes += 1;
+        }
+    }
+    let mut found: Vec<Option<Vec<u8>>> = vec![None; n_writes];
+    let mut files = Vec::new();
+    walk_files(&dump_root, &mut files);
+    for f in files {
+        if let Ok(txt) = std::fs::read_to_string(&f) {
+            if let Ok(k) = txt.parse::<usize>() {
+                if k < n_writes {
+                    found[k] = f.strip_prefix(&dump_root).ok().and_then(|p| p.to_str()).map(|s| s.as_bytes().to_vec());
+                }
+            }
+        }
+    }
+    let dumptree = found;
+
     let cache_b = ALIAS.as_bytes().to_vec();
     let obs = json!({"cache": from_bytes(&cache_b), "paths": js(&paths), "ta_files": js(&tafiles),
-                     "dump_names": js(&dumpnames), "dump_files": js(&dumpfiles)});
-    let coq = format!("{{| c_cache := {}; c_rs := {}; c_hs := {}; c_paths := {}; c_tafiles := {}; c_dumpnames := {}; c_dumpfiles := {} |}}",
+                     "dump_names": js(&dumpnames), "dump_files": js(&dumpfiles), "dump_tree": js(&dumptree)});
+    let coq = format!("{{| c_cache := {}; c_rs := {}; c_hs := {}; c_paths := {}; c_tafiles := {}; c_dumpnames := {}; c_dumpfiles := {}; c_dumptree := {} |}}",
         coq_bytes(&cache_b), coq_list(rs.iter(), |u| coq_bytes(u)), coq_list(hs.iter(), |u| coq_bytes(u)),
-        coq_obs(&paths), coq_obs(&tafiles), coq_obs(&dumpnames), coq_obs(&dumpfiles));
+        coq_obs(&paths), coq_obs(&tafiles), coq_obs(&dumpnames), coq_obs(&dumpfiles), coq_obs(&dumptree));
     let nontrivial = pr.iter().flatten().count() + ph.iter().flatten().count() >= 2;
     CaseOut { obs, coq, nontrivial }
 }
